@@ -22,6 +22,12 @@ single `(` or `)` ARE generated (defect F25, found with this generator and repai
 Java the lexers split a literal into quote / content / quote String tokens and the header pattern
 used to count the content as a parenthesis; tree_stream.REGRESS_F25).
 
+`decorate` (second half of this file) adds COMMENT tokens (kind 5) and suppression markers to a laid-out
+forest: own-line and trailing `//` and `/* */` comments anywhere (between statements, inside headers and
+their brace groups, in gaps, after `{`, before the first and after the last token), block comments in
+the middle of a line, markers (`// nocl`, `/* NOCL */`, `//nocl x`, ...) and decoys (`// not nocl`,
+`/// nocl`, ...) on the name lines of a random subset of functions and on other lines.
+
 Every random choice comes from the `random.Random` passed in.
 """
 import re
@@ -32,7 +38,7 @@ JSLIKE = ("JavaScript", "TypeScript")
 
 
 class Tk:
-    __slots__ = ("kind", "text", "glue", "start", "soft", "nl", "col")
+    __slots__ = ("kind", "text", "glue", "start", "soft", "nl", "col", "role")
 
     def __init__(self, kind, text, glue=False):
         self.kind = kind
@@ -42,6 +48,7 @@ class Tk:
         self.soft = False     # a natural place for a line break inside a statement / header
         self.nl = 0
         self.col = 0
+        self.role = None      # comments added by `decorate`: "marker" | "decoy" | "plain"
 
     def __repr__(self):
         return "Tk(%d,%r)" % (self.kind, self.text)
@@ -737,6 +744,11 @@ def tree_request(lang, nodes):
     return "tree %d %s" % (LANG_INDEX[lang], enc_forest(nodes))
 
 
+def mark_request(lang, nodes):
+    """request of the driver operation `marktree` (Model/ProgMarkOps.lean): forests with comment tokens"""
+    return "marktree %d %s" % (LANG_INDEX[lang], enc_forest(nodes))
+
+
 def generate(lang, rnd, size=None, sweep=None):
     """-> (nodes, laid-out token list)"""
     g = Gen(lang, rnd)
@@ -766,3 +778,305 @@ def ts_colon_rule(ts):
             i += 2
         else:
             i += 1
+
+
+# --------------------------------------------------------------------------- comments and suppression markers
+#
+# Pygments facts the decoration relies on (re-checked on every forest by mark_stream: `lexer_mismatch`):
+#  * `/* ... */` is one Comment.Multiline token in all six lexers; `// ...` is one Comment.Single token whose
+#    value INCLUDES the terminating newline in C, C++ and C# and excludes it in Java, JavaScript, TypeScript
+#    (the forest's comment token never contains the newline: mark_stream compares modulo that newline);
+#  * C and C++ (known finding KF2): the lexer matches `type name ( signature ) ... {` with ONE regular
+#    expression whose signature part is `\([^;"')]*?\)`; the pieces are then lexed separately, so a comment
+#    containing `)` inside a parameter list is cut in two and not lexed as a comment.  Comments placed inside
+#    the parentheses of a header therefore never contain `)` in C / C++ (`SPICY_HDR_OK`);
+#  * Java: after the keywords `class`, `interface`, `record`, `import`, `package` the lexer is in a state that knows white
+#    space and a name only; C#: the same after `class`, `struct`, `namespace`, `using`.  A comment directly after such a
+#    keyword is NOT lexed as a comment (`/`, `*`, the words and even braces of the comment become code tokens): an
+#    observation about the third-party lexers of the kind of KF2.  `NO_COMMENT_AFTER`: never generated; Java: `record` is
+#    a keyword only in `record Name (` / `record Name <` with white space in between, so no comment after that name;
+#  * TypeScript: the rule `word : word` needs the three tokens to be separated by white space only; a comment
+#    in between switches the rule off (`ts_colon_rule` is applied to the token list WITH the comments).
+
+LINE_PLAIN = ["// c", "//", "// x = 1 ;", "// f ( ) {", "// }", "// {", "// TODO: ( later )", "// don't", '// say "hi', "//// wide",
+              "// a /* b */ c", "//\tt"]
+BLOCK_PLAIN = ["/* c */", "/**/", "/* { */", "/* } */", "/* f ( ) { */", "/* ; */", "/* ( */", "/* ) */", "/** doc */", "/* it's */",
+               '/* " */', "/* // */", "/*x*/"]
+LINE_MARK = ["// nocl", "//nocl", "// NOCL", "//nocl x", "// nocl: generated", "//  NoCl", "//\tnocl", "// nocl }", "// nocl {"]
+BLOCK_MARK = ["/* nocl */", "/* NOCL */", "/*nocl*/", "/* nocl: why */", "/*  Nocl*/", "/* nocl { */"]
+LINE_DECOY = ["// not nocl", "/// nocl", "//! nocl", "// no cl", "// see nocl", "//: nocl", "// n ocl"]
+BLOCK_DECOY = ["/* not nocl */", "/** nocl */", "/* see the NOCL docs */", "/* no-cl */", "/*: nocl */"]
+
+
+NO_COMMENT_AFTER = {"Java": {"class", "interface", "record", "import", "package"},
+                    "C#": {"class", "struct", "namespace", "using"}}
+
+
+def is_marker_text(v):
+    """Python twin of `isNoclText` for // and /* */ comments (statistics only: the oracle is the model)"""
+    v = v.lower()
+    if v.startswith("//") or v.startswith("/*"):
+        v = v[2:].strip()
+    return v.startswith("nocl")
+
+
+def is_line_comment(t):
+    return t is not None and t.kind == 5 and t.text.startswith("//")
+
+
+def _slots(nodes, j, out, where, depth_hdr):
+    """all places of the forest where a token can be inserted, in flat order:
+    (flat index j, list, index in the list, kind 'n' node list / 'g' gap token list, where, inside a header?)"""
+    for i, n in enumerate(nodes):
+        out.append((j, nodes, i, "n", where, depth_hdr))
+        if n[0] == "leaf":
+            j += 1
+        elif n[0] == "group":
+            j = _slots(n[3], j + 1, out, "hdrgroup" if depth_hdr else "group", depth_hdr) + 1
+        else:
+            j = _slots(n[1], j, out, "hdr", True)
+            gap = n[3]
+            for gi in range(len(gap) + 1):
+                out.append((j + gi, gap, gi, "g", "gap", False))
+            j = _slots(n[6], j + len(gap) + 1, out, "body", False) + 1
+    out.append((j, nodes, len(nodes), "n", where, depth_hdr))
+    return j
+
+
+def slots(nodes):
+    out = []
+    _slots(nodes, 0, out, "top", False)
+    return out
+
+
+def _fn_names(nodes, acc):
+    """the name TOKEN of every function node (identity survives insertions into the header)"""
+    for n in nodes:
+        if n[0] == "group":
+            _fn_names(n[3], acc)
+        elif n[0] == "fn":
+            acc[id(n[1])] = flat(n[1])[n[2]]
+            _fn_names(n[1], acc)
+            _fn_names(n[6], acc)
+    return acc
+
+
+def _renumber(nodes, names):
+    """rebuild the forest with the name index of every header re-counted"""
+    out = []
+    for n in nodes:
+        if n[0] == "leaf":
+            out.append(n)
+        elif n[0] == "group":
+            out.append(("group", n[1], n[2], _renumber(n[3], names)))
+        else:
+            hdr = _renumber(n[1], names)
+            name = names[id(n[1])]
+            k = next(i for i, t in enumerate(flat(hdr)) if t is name)
+            out.append(("fn", hdr, k, n[3], n[4], n[5], _renumber(n[6], names)))
+    return out
+
+
+def name_tokens(nodes):
+    """name tokens of all function nodes, preorder"""
+    out = []
+    for n in nodes:
+        if n[0] == "group":
+            out += name_tokens(n[3])
+        elif n[0] == "fn":
+            out.append(flat(n[1])[n[2]])
+            out += name_tokens(n[6])
+    return out
+
+
+def _in_c_signature(ts, j):
+    """is flat position j (between ts[j-1] and ts[j]) inside an open parenthesis? (C / C++: KF2)"""
+    d = 0
+    for t in ts[:j]:
+        if t.kind == 3 and t.text == "(":
+            d += 1
+        elif t.kind == 3 and t.text == ")":
+            d -= 1
+    return d > 0
+
+
+def _gap_after(rnd, a):
+    """blank columns between token `a` and a comment that follows it on the line"""
+    if a.kind == 3 and a.text in (";", "{", "}", "(", ")", ",") and rnd.random() < 0.25:
+        return 0
+    return 1 if rnd.random() < 0.8 else rnd.randint(2, 5)
+
+
+def _place(rnd, lang, ts, j, x, mode):
+    """set nl / col of the comment token `x` inserted between A = ts[j-1] and B = ts[j] (either may be missing)
+    and adjust B.  mode: 'trail' (x ends A's line), 'own' (x begins a line), 'inline' (x inside a line).
+    -> False if the mode is impossible here"""
+    a = ts[j - 1] if j > 0 else None
+    b = ts[j] if j < len(ts) else None
+    line = x.text.startswith("//")
+    if b is not None and b.glue:
+        return False
+    if a is not None and a.kind == 1 and a.text in NO_COMMENT_AFTER.get(lang, ()):
+        return False
+    if lang == "Java" and j >= 2 and ts[j - 2].kind == 1 and ts[j - 2].text == "record":
+        return False              # `record K /* c */ (`: the lexer then reads `record` as a Name
+    if lang == "C#" and b is not None and b.text == "[" and b.nl == 0:
+        if line or mode != "inline":
+            return False          # a `[` at the start of a line begins an attribute for the C# lexer
+    b_abs = b is None or b.nl > 0 or a is None       # B's column does not depend on its predecessor
+    ind = rnd.choice([0, 0, 2, 4, 4, 8, 1, 13])
+    if mode == "trail":
+        if a is None or is_line_comment(a):
+            return False
+        x.nl, x.col = 0, len(a.text) - 1 + _gap_after(rnd, a)
+        if b is not None and b.nl == 0:
+            b.nl, b.col = 1 + (1 if rnd.random() < 0.1 else 0), ind    # the rest of the line moves to a new line
+        return True
+    if mode == "own":
+        if a is None:
+            x.nl, x.col = (b.nl if b is not None else rnd.randint(0, 2)), ind
+        else:
+            x.nl, x.col = (b.nl if (b is not None and b.nl > 0 and rnd.random() < 0.7) else rnd.randint(1, 2)), ind
+        if b is not None:
+            if line or rnd.random() < 0.75:
+                bcol = b.col if b_abs else ind
+                b.nl, b.col = 1 + (1 if rnd.random() < 0.1 else 0), bcol
+            else:
+                b.nl, b.col = 0, len(x.text) - 1 + rnd.choice([0, 1, 1, 2])     # `/* c */ code` on one line
+        return True
+    # inline: a block comment between two tokens of one line (or at the start of B's line)
+    if line:
+        return False
+    if a is None or b is None or is_line_comment(a):
+        return False
+    if b.nl > 0:
+        # x takes B's place at the start of the line, B follows on the same line
+        x.nl, x.col = b.nl, b.col
+        b.nl, b.col = 0, len(x.text) - 1 + rnd.choice([0, 1, 1, 2])
+        return True
+    g1 = 0 if (rnd.random() < 0.3 and (is_word(a) or (a.kind == 3 and a.text in ";{}(),[]"))) else 1
+    x.nl, x.col = 0, len(a.text) - 1 + g1
+    b.nl, b.col = 0, len(x.text) - 1 + rnd.choice([0, 1, 1, 2])
+    return True
+
+
+def _insert(nodes, slot, x):
+    (_j, lst, i, kind, _w, _h) = slot
+    lst.insert(i, x if kind == "g" else ("leaf", x))
+
+
+def _pick_text(rnd, lang, role, line, in_sig):
+    pool = {("plain", True): LINE_PLAIN, ("plain", False): BLOCK_PLAIN, ("marker", True): LINE_MARK, ("marker", False): BLOCK_MARK,
+            ("decoy", True): LINE_DECOY, ("decoy", False): BLOCK_DECOY}[(role, line)]
+    if in_sig and lang in ("C", "C++"):
+        pool = [c for c in pool if ")" not in c]           # KF2
+    return rnd.choice(pool)
+
+
+def add_comment(rnd, lang, nodes, role="plain", where=None, at=None, mode=None):
+    """insert ONE comment token; `at` = flat index (between ts[at-1] and ts[at]) or None for a random place;
+    `where` restricts the kind of slot ('hdr', 'hdrgroup', 'gap', 'body', 'group', 'top').  -> the token or None"""
+    ts = flat(nodes)
+    sl = [s for s in slots(nodes) if (at is None or s[0] == at) and (where is None or s[4] == where)]
+    if not sl:
+        return None
+    for _ in range(6):
+        slot = rnd.choice(sl)
+        j = slot[0]
+        a = ts[j - 1] if j > 0 else None
+        b = ts[j] if j < len(ts) else None
+        m = mode or rnd.choice(["trail", "trail", "own", "own", "inline"])
+        line = rnd.random() < 0.5 and m != "inline"
+        x = Tk(5, _pick_text(rnd, lang, role, line, _in_c_signature(ts, j)))
+        x.role = role
+        if _place(rnd, lang, ts, j, x, m):
+            _insert(nodes, slot, x)
+            return x
+    return None
+
+
+def line_of(ts):
+    """token -> (line, first flat index of its line, last flat index of its line)"""
+    out = {}
+    line, start = 1, 0
+    for i, t in enumerate(ts):
+        if t.nl > 0:
+            for k in range(start, i):
+                out[id(ts[k])] = (line, start, i - 1)
+            line += t.nl
+            start = i
+    for k in range(start, len(ts)):
+        out[id(ts[k])] = (line, start, len(ts) - 1)
+    return out
+
+
+def mark_name_line(rnd, lang, nodes, name_tok, role="marker"):
+    """put a marker (or decoy) comment on the line of `name_tok`: trailing at the end of that line, or a block
+    comment somewhere on the line (in front of the name, too)"""
+    ts = flat(nodes)
+    (_ln, s, e) = line_of(ts)[id(name_tok)]
+    if is_line_comment(ts[e]):
+        if rnd.random() < 0.5:
+            return None
+        j, mode = rnd.randint(s, e), "inline"        # the line already ends with a `//` comment
+    elif rnd.random() < 0.6:
+        j, mode = e + 1, "trail"
+    else:
+        j, mode = rnd.randint(s, e), "inline"
+        if j == 0:
+            j, mode = e + 1, "trail"
+    return add_comment(rnd, lang, nodes, role=role, at=j, mode=mode)
+
+
+def decorate(rnd, lang, nodes, ts=None, p_plain=None, p_mark=None):
+    """comments and markers for a LAID-OUT forest (`layout` has run).  -> (new nodes, new token list, info)
+    The node lists of `nodes` are modified in place; the returned forest has the name indices re-counted."""
+    names = _fn_names(nodes, {})
+    fn_names = name_tokens(nodes)
+    info = {"comments": 0, "markers": 0, "decoys": 0, "marked_name_lines": 0, "where": {}}
+    style = rnd.choice(["none", "few", "few", "many", "markers", "mixed", "mixed"])
+    n_plain = {"none": 0, "few": rnd.randint(1, 3), "many": rnd.randint(4, 12), "markers": rnd.randint(0, 2), "mixed": rnd.randint(1, 6)}[style]
+    if p_plain is not None:
+        n_plain = p_plain
+    for _ in range(n_plain):
+        role = "plain" if rnd.random() < 0.85 else "decoy"
+        where = rnd.choice([None, None, None, "hdr", "gap", "hdrgroup", "body", "top"])
+        x = add_comment(rnd, lang, nodes, role=role, where=where) or add_comment(rnd, lang, nodes, role=role)
+        if x is not None:
+            info["comments"] += 1
+    if style in ("markers", "mixed") or p_mark is not None:
+        pm = p_mark if p_mark is not None else rnd.choice([0.15, 0.3, 0.6, 1.0])
+        for nt in fn_names:
+            r = rnd.random()
+            if r < pm:
+                if mark_name_line(rnd, lang, nodes, nt, "marker") is not None:
+                    info["markers"] += 1
+            elif r < pm + 0.15:
+                if mark_name_line(rnd, lang, nodes, nt, "decoy") is not None:
+                    info["decoys"] += 1
+        # markers on lines that (probably) carry no name: own-line markers anywhere, trailing ones in bodies
+        for _ in range(rnd.choice([0, 0, 1, 1, 2, 3])):
+            m = rnd.choice(["own", "own", "trail"])
+            if add_comment(rnd, lang, nodes, role="marker", mode=m, where=rnd.choice([None, "body", "top", "hdr"])) is not None:
+                info["markers"] += 1
+    out = _renumber(nodes, names)
+    ts2 = flat(out)
+    if lang == "TypeScript":
+        ts_colon_rule(ts2)      # on the token list WITH the comments: a comment next to the colon switches the rule off
+    # statistics: which functions are named on a marked line
+    lo = line_of(ts2)
+    marked = {lo[id(t)][0] for t in ts2 if t.kind == 5 and is_marker_text(t.text)}
+    info["marked_name_lines"] = sum(1 for t in name_tokens(out) if lo[id(t)][0] in marked)
+    info["functions"] = len(fn_names)
+    info["style"] = style
+    return out, ts2, info
+
+
+def generate_marked(lang, rnd, size=None):
+    """-> (nodes with comments and markers, laid-out token list, info)"""
+    g = Gen(lang, rnd)
+    nodes = g.program(size)
+    if not nodes:
+        nodes = g.it(";", 0)
+    ts = layout(rnd, nodes, lang)
+    return decorate(rnd, lang, nodes, ts)
